@@ -101,7 +101,7 @@ def run(tier, seed):
             raise Machinery("%s: %d rows for %d states" % (cfg, len(rows), res["distinct"]))
         ev.tlc(cfg, res, "alignment (AdjustSpec per level) composed with the triplet definition; invariants Aligned, InRange")
         for k, r in enumerate(rows):
-            if not thorough and (k + seed) % 2:
+            if not thorough and (k + seed) % 5:
                 continue
             ri, rl = hier(r["ref"])
             ei, el = hier(r["est"])
